@@ -14,6 +14,7 @@
 #include <fcppt/algorithm/map.hpp>
 #include <fcppt/algorithm/map_concat.hpp>
 #include <fcppt/algorithm/map_optional.hpp>
+#include <fcppt/algorithm/remove.hpp>
 #include <fcppt/algorithm/remove_if.hpp>
 #include <fcppt/algorithm/reverse.hpp>
 #include <fcppt/algorithm/unique.hpp>
@@ -319,6 +320,43 @@ Family const &algorithm_family()
         if (removed != (static_cast<int>(e.size()) != n))
           fail(cx.key("return-value"), cx.where() + "returned " + (removed ? "true" : "false"));
       }));
+    // ---- remove (documented mutation): origins congruent modulo 10 compare equal. The element is a
+    // const reference parameter: an independent value (alias -1, origin 30 + key) or a reference to
+    // an element of the container itself (alias = its index), which the re-arrangement moves from
+    // while the comparison is still in use - the element has to be compared by a value taken before.
+    // Copies of the element argument are its own business (a const lvalue); every other element of
+    // the container travels by move.
+    {
+      struct RemoveShape { std::vector<int> origins; int alias; int ext_key; };
+      static std::vector<RemoveShape> const shapes{
+          {{}, -1, 3}, {{3}, -1, 3}, {{3}, 0, 0}, {{0, 10, 1}, 0, 0}, {{0, 10, 1}, 1, 0}, {{0, 1, 10, 2}, 0, 0}, {{1, 0, 2, 10, 20, 3}, 1, 0},
+          {{0, 1, 2}, -1, 7}, {{0, 1, 11, 21, 2}, -1, 1}, {{5, 15, 25}, 2, 0}, {{4, 14, 5, 15, 4}, 0, 0}, {{1, 2, 3, 11, 4, 5, 21}, 0, 0}};
+      r.push_back(entry0("algorithm::remove", static_cast<int>(shapes.size()), [](Ctx &cx, int shape) {
+        RemoveShape const &s = shapes[static_cast<std::size_t>(shape)];
+        vec v;
+        v.reserve(s.origins.size());
+        for (int x : s.origins) v.emplace_back(x);
+        tracked const ext(30 + s.ext_key);
+        bool const aliased = s.alias >= 0;
+        int const target = aliased ? s.origins[static_cast<std::size_t>(s.alias)] : 30 + s.ext_key;
+        cx.klass_override(aliased ? "mutable-lvalue-container+const-lvalue-element-of-it" : "mutable-lvalue-container+const-lvalue-element");
+        cx.elements += static_cast<int>(s.origins.size()) + 1;
+        for (int x : s.origins)
+          if (x != target) cx.rvalue_origins.insert(x);
+        tracked const &element = aliased ? v[static_cast<std::size_t>(s.alias)] : ext;
+        cx.begin();
+        bool const removed = fcppt::algorithm::remove(v, element);
+        cx.end();
+        std::vector<int> e;
+        for (int x : s.origins)
+          if (x % 10 != target % 10) e.push_back(x);
+        cx.expect_state(v, e, "container");
+        if (removed != (e.size() != s.origins.size()))
+          fail(cx.key("return-value"), cx.where() + "returned " + (removed ? "true" : "false"));
+        if (!aliased && (!ext.peek_alive() || ext.peek_origin() != target))
+          fail(cx.key("const-lvalue-element|changed"), cx.where() + "the element argument was modified");
+      }));
+    }
     // ---- unique (documented mutation): origins congruent modulo 10 compare equal
     {
       static std::vector<std::vector<int>> const shapes{{}, {3}, {0, 10, 1}, {0, 1, 11, 21, 2}, {5, 15, 25}, {0, 1, 2}, {4, 14, 5, 15, 4}};
